@@ -23,9 +23,9 @@ import (
 func TestVerifC04(t *testing.T) {
 	vfMain(t, vfCheck{
 		ID: "C04", Level: "fault_enumeration",
-		Rule: "10 scenarios (N concurrent single calls; concurrent and sequential ReadAt / WriteTo / WriteAt / ReadFrom mid-transfer; callers that keep issuing requests; raw dispatchRequest ledger) x fault kinds {server->client stream EOF at byte n, error at byte n, k-th client->server Write call fails with the connection reset, k-th Write fails one-sided}; quick: every reply-frame boundary +-1 and a seeded 12% of the interior offsets, thorough: every offset 0..T and every write index. A class is (scenario, fault kind, position bucket); non-trivial when calls were in flight at the moment of the fault.",
+		Rule:        "10 scenarios (N concurrent single calls; concurrent and sequential ReadAt / WriteTo / WriteAt / ReadFrom mid-transfer; callers that keep issuing requests; raw dispatchRequest ledger) x fault kinds {server->client stream EOF at byte n, error at byte n, k-th client->server Write call fails with the connection reset, k-th Write fails one-sided}; quick: every reply-frame boundary +-1 and a seeded 12% of the interior offsets, thorough: every offset 0..T and every write index. A class is (scenario, fault kind, position bucket); non-trivial when calls were in flight at the moment of the fault.",
 		Assumptions: []string{"'bounded time' is decided as 'no stuck state' (every goroutine parked with nothing able to wake it), not as a latency bound", "the peer is scripted, so which replies were completely delivered before byte n is known exactly", "race detector on"},
-		Units: func(tier vfTier, seed uint64) int { return 10 * 4 },
+		Units:       func(tier vfTier, seed uint64) int { return 10 * 4 },
 		Shards: func(tier vfTier) int {
 			if tier == vfThorough {
 				return 15
@@ -175,16 +175,16 @@ type c04Frames struct {
 
 // c04RunOnce runs the scenario with an optional fault; returns observations.
 type c04Obs struct {
-	results    []c04Result
-	frames     *c04Frames
-	T          int64 // bytes written server->client
-	W          int   // write calls client->server
-	stuck      string
-	closeStuck string
-	waitStuck  string
-	leaks      []string
-	ledger     []int // results found in each harness-owned channel
-	ledgerLate []int
+	results         []c04Result
+	frames          *c04Frames
+	T               int64 // bytes written server->client
+	W               int   // write calls client->server
+	stuck           string
+	closeStuck      string
+	waitStuck       string
+	leaks           []string
+	ledger          []int // results found in each harness-owned channel
+	ledgerLate      []int
 	inflightAtFault int
 	handshake       int64
 	fired           bool
